@@ -20,7 +20,7 @@ MANIFEST = {
 
 
 def check(run):
-    broken, findings, results = il.standard(run, "C16", "c16", extra_subs=("sock",))
+    broken, findings, results = il.standard(run, "C16", "c16", extra_subs=("sock", "race"))
     run.coverage["rule"] = (
         "timing: histories with clock ticks on a real handler with timeout 500 ms (tick unit 50 ms); between two long ticks (30 units) the "
         "short ticks add up to <= 3 units so every observation is made <= 0.3 or >= 3 timeouts after a timer was armed; exh-N2-P1-d3(+conn): "
@@ -38,7 +38,18 @@ def check(run):
         "side (the server connection's reader is then the first closer) or from the server connection; with m open one more must be refused, "
         "not blocked; then CqlServer.Close() must return within 4 s and the goroutine count must return to the baseline; verdicts "
         "accept-blocked (Bind/Accept does not return within 8 s, or a client is still refused 5 s after its predecessors were closed: the slot "
-        "of a closed connection never came back), close-hangs, goroutine-leak, with the session and the goroutine stacks. Socket sessions (sock): scripted client/server sessions on localhost, "
+        "of a closed connection never came back), close-hangs, goroutine-leak, with the session and the goroutine stacks. Lifecycle sessions "
+        "(sock, deterministic): CqlServer.Close with an Accept pending for a client the server has forgotten / that never arrives / after an "
+        "Accept that timed out (Close returns without panic, the Accept returns at once); Start on a taken port (error, IsRunning false, Close "
+        "is harmless, Start works once the port is free). Race families (race, each in a child process for a time box of 3-5 s, 30 s in "
+        "thorough, 4 workers): a response delivered around the moment the read timeout fires (timeout 100us-2ms, offset -40..+60us) and pages "
+        "delivered while the handler closes; Send from 4 goroutines while the client connection closes; Send/SendRaw while the server "
+        "connection closes; Close of a server connection whose peer streams requests; Close of a client connection whose peer streams events "
+        "or answers requests around their read timeout. Every Send returns a value or an error, every Close returns, the child survives; "
+        "verdict panic carries the panic value and stack (recovered in the caller) or the child's exit status and the runtime's panic message "
+        "(library goroutine), close-hangs the stacks after 6 s without progress. Probabilistic: detection rates on the pre-fix code are in "
+        "notes/inflight.md. Observed, not judged (evidence notes): Close() called from a connection's own handler; a timed-out request keeps "
+        "its managed id until the late response. Socket sessions (sock): scripted client/server sessions on localhost, "
         "close injected from the client, the server or the peer socket at each step boundary, goroutine count compared with the baseline "
         "after bounded waits - exercised, not proved. non-trivial = at least one request accepted and one other kind of outcome")
     il.verdict(run, "C16", broken, findings)
